@@ -228,4 +228,4 @@ def run_property(prop, tier, seed, root, replay=None):
             extra['rewrite_sweep'] = {'rewrites': r['rewrites'], 'by_kind': r['by_kind'], 'raising_a_report': ['%s %s' % (n, f) for n, f in r['noisy']], 'wall_s': round(time.time() - t, 2)}
             if r['noisy']:
                 ctx.note('rewrite sweep: behaviour-preserving rewrites that raised a report: %s' % ', '.join(n for n, f in r['noisy'][:5]))
-    return report.finish(ctx, mod.FLOOR, mod.EXPLANATION, mod.TRUSTED, mod.ASSUMPTIONS, extra=extra)
+    return report.finish(ctx, mod.FLOOR, mod.EXPLANATION, mod.TRUSTED, mod.ASSUMPTIONS, extra=extra, rules=getattr(mod, 'RULES', None))
